@@ -288,6 +288,10 @@ class Gen:
         base = r.choice([0, 1, 1000, 65534, 2 ** 31 - 1, 2 ** 31, SENT - 3])
         hs = self.c.get("GID_HASH_SIZE", 2053)
         pool = [base, base + 1, base + 2, base + hs, base + 2 * hs, (base + 7 * hs)]
+        # uids in ONE hash slot that are >= 2^31 apart (directory-mapped uids next to ordinary ones): the order on uids must stay
+        # a total order there, or a chain stops being sorted and a user's head is duplicated
+        k = (2 ** 31) // hs + 1
+        pool += [base + k * hs, base + 2 * k * hs - hs, base + (k + 3) * hs]
         return [u % (SENT + 1) for u in pool] + [SENT, 0]
 
     def gid_pool(self):
